@@ -720,6 +720,21 @@ impl World {
         let (_kept, lost, torn_applied) = node.disk.crash(keep as usize, torn as usize);
         node.apply_q.clear();
         node.outstanding.clear();
+        // A term the node entered but never made durable and never mentioned to anybody is
+        // forgotten legitimately (only a node that wins by its own vote can create entries in
+        // such a term): after the restart it may live through that term again, differently.
+        let (mem_term, dur_term) = (node.obs.term, node.disk.durable.hs.term);
+        let told = self.ghost.max_term_released.get(&n).cloned().unwrap_or(0);
+        for t in (dur_term + 1)..=mem_term {
+            if t > told {
+                if self.ghost.leader_of.get(&t) == Some(&n) {
+                    self.ghost.leader_of.remove(&t);
+                    self.ghost.reg.retain(|k, _| k.1 != t);
+                    *self.stats.entry("forgotten_undurable_leader_term").or_insert(0) += 1;
+                }
+                self.ghost.granted.remove(&(n, t));
+            }
+        }
         self.bump("crashes");
         if lost > 0 {
             self.bump("crashes_losing_writes");
@@ -924,7 +939,15 @@ impl World {
     fn install_snapshot(&mut self, n: NodeId, snap: Snapshot) -> VResult<()> {
         self.bump("snapshots_installed");
         let node = self.nodes.get_mut(&n).unwrap();
-        let r = catch_unwind(AssertUnwindSafe(|| node.disk.store.mem.wl().apply_snapshot(snap.clone())));
+        let at_boundary = snap.get_metadata().index + 1 == node.disk.model.first_index()
+            && node.disk.model.term(snap.get_metadata().index) == Ok(snap.get_metadata().term);
+        let r = if at_boundary {
+            // MemStorageCore::apply_snapshot documents idx < first_index as outside its precondition;
+            // the storage already is at this snapshot point, so the application has nothing to write.
+            Ok(Ok(()))
+        } else {
+            catch_unwind(AssertUnwindSafe(|| node.disk.store.mem.wl().apply_snapshot(snap.clone())))
+        };
         match r {
             Ok(Ok(())) => {}
             _ => {
@@ -934,8 +957,12 @@ impl World {
                 return Err(self.violation("C15", "C15.install_effect", n, d, "snapshot_not_applicable".into()));
             }
         }
-        node.disk.model.apply_snapshot(&snap);
-        node.disk.queue(WriteItem::Snapshot(snap.clone()));
+        if !at_boundary {
+            node.disk.model.apply_snapshot(&snap);
+            node.disk.queue(WriteItem::Snapshot(snap.clone()));
+        } else {
+            self.stats.entry("snapshot_at_storage_boundary").and_modify(|x| *x += 1).or_insert(1);
+        }
         let st = AppState::from_snapshot(&snap);
         // queued-but-unapplied entries covered by the snapshot are dropped
         while node.apply_q.front().map(|e| e.index <= st.applied).unwrap_or(false) {
